@@ -128,12 +128,16 @@ def lay_out(lines, c, shipped_text=False):
             phys.append((line + rng.choice(['', '', ' ', '\t']), eol()))
             continue
         gaps = gen_source.break_positions(line)
-        cuts = [g for g in gaps if rng.random() < c['p_break'] * 0.5]
+        cuts = [(g, 1) for g in gaps if rng.random() < c['p_break'] * 0.5]
+        # … and at the zero-width gaps where the grammar allows white space (before a comma, inside parentheses,
+        # before a header's colon, after a unary operator): the join writes a space where the canonical text has none
+        cuts += [(g, 0) for g in gen_source.zero_gap_positions(line) if rng.random() < c['p_break'] * 0.25]
+        cuts.sort()
         parts = []
         prev = 0
-        for g in cuts:
+        for g, width in cuts:
             parts.append(line[prev:g])
-            prev = g + 1
+            prev = g + width
         parts.append(line[prev:])
         for pi, part in enumerate(parts):
             indent = rng.choice(['', '', '  ', '    ', '\t', ' \t '])
